@@ -119,7 +119,7 @@ class ReusableParts:
     )
 
     def normalize(self, path: str) -> NormalizedShape:
-        if self.reuse_tolerance != -1:
+        if self.reuse_tolerance >= 0:
             # normalize handles it's own rounding
             # apply a nop transform because some things still change, like arcs to cubics
             norm = NormalizedShape(
@@ -170,7 +170,7 @@ class ReusableParts:
     def _compute_donor(self, norm: NormalizedShape):
         self._donor_cache[norm] = None  # no solution
 
-        if self.reuse_tolerance == -1:
+        if self.reuse_tolerance < 0:
             # reuse is disabled (see try_reuse); affine_between is meaningless, and
             # can divide by zero, with a negative tolerance
             return
@@ -220,7 +220,7 @@ class ReusableParts:
     def try_reuse(self, shape: SVGPath) -> Optional[ReuseResult]:
         """Returns the shape and transform to use to build the input shape."""
         shape = as_shape(shape)
-        if self.reuse_tolerance == -1:
+        if self.reuse_tolerance < 0:
             return ReuseResult(Affine2D.identity(), shape)
 
         norm = self.normalize(shape)
